@@ -342,10 +342,13 @@ fn main() {
                     sc.spawn(move || {
                         let ls = if s.ke() == "Curve25519" { xlines } else { lines };
                         let (mut steps, mut values, mut vio) = (0, 0, Vec::new());
+                        let mut refused = 0;
                         for (i, l) in ls.iter().enumerate() {
-                            let o = group::run_behaviour(*s, seed, l);
+                            // every behaviour draws its seeds / random keys / imported keys from its own tapes
+                            let o = group::run_behaviour(*s, seed.wrapping_add(i as u64 * 7919), l);
                             steps += o.steps;
                             values += o.values;
+                            if o.refused { refused += 1; }
                             if let Some(mut v) = o.violation {
                                 v["behaviour_index"] = json!(i);
                                 v["line"] = l.clone();
@@ -354,7 +357,7 @@ fn main() {
                         }
                         let (re, rv) = group::random_keys(*s, seed, nrand);
                         if let Some(v) = rv { vio.push(v); }
-                        json!({"suite": s.name(), "behaviours": ls.len(), "steps": steps, "values": values, "random_keys": re, "violations": vio})
+                        json!({"suite": s.name(), "behaviours": ls.len(), "import_refused": refused, "steps": steps, "values": values, "random_keys": re, "violations": vio})
                     })
                 }).collect();
                 hs.into_iter().map(|h| h.join().unwrap()).collect()
